@@ -77,6 +77,10 @@ EXPLANATION += (
     " Round 11: the run's tree is never asked about a node named by the marker table (R-PROV/tree-asked-about-its-own-nodes)."
 )
 
+EXPLANATION += (
+    ' Round 12: the flatten union runs over the marker table as loaded (R-COVER/flatten-union).'
+)
+
 RULE_TEXT = (
     "one obligation per consumer of the tree, per reducer call, per "
     "drop_level(<config>) call site, per flatten rebinding")
